@@ -36,8 +36,10 @@ def b_and(a, b):
             out.append(x)
         elif x == y:
             out.append(x)
-        else:
+        elif x == 'X' or y == 'X':
             out.append('X')
+        else:
+            out.append('M')      # depends on two different input bits: definitely not a copy of one input bit
     return out
 
 
@@ -52,8 +54,10 @@ def b_or(a, b):
             out.append(x)
         elif x == y:
             out.append(x)
-        else:
+        elif x == 'X' or y == 'X':
             out.append('X')
+        else:
+            out.append('M')
     return out
 
 
@@ -63,9 +67,9 @@ def b_join0(a, b):
     for x, y in zip(a, b):
         if x == y:
             out.append(x)
-        elif x == '0' and y not in ('1', 'X'):
+        elif x == '0' and y not in ('1', 'X', 'M'):
             out.append(y)
-        elif y == '0' and x not in ('1', 'X'):
+        elif y == '0' and x not in ('1', 'X', 'M'):
             out.append(x)
         else:
             out.append('X')
@@ -233,7 +237,7 @@ def low(bitsv, n=8):
 def show(bitsv, names=None, n=8):
     out = []
     for b in reversed(bitsv[:n]):
-        if b in ('0', '1', 'X'):
+        if b in ('0', '1', 'X', 'M'):
             out.append(b)
         else:
             out.append('%s%d' % ((names or {}).get(b[0], 'v'), b[1]))
